@@ -565,12 +565,12 @@ impl Database {
         crate::verif::yield_point("inc_value.map.write");
         let (value, version) = {
             let mut db = self.map.write().unwrap();
-            match i32::from_str_radix(
-                &db.get(&key.to_string())
-                    .unwrap_or(&Value::from("0"))
-                    .to_string(),
-                10,
-            ) {
+            // A removed key that is still waiting to be deleted from disk counts as absent (0)
+            let current_value = match db.get(&key.to_string()) {
+                Some(value) if value.state != ValueStatus::Deleted => value.to_string(),
+                _ => String::from("0"),
+            };
+            match i32::from_str_radix(&current_value, 10) {
                 Ok(current) => {
                     let next = (current + inc).to_string();
                     db.insert(key.clone(), Value::from(next.clone()));
